@@ -12,7 +12,7 @@ def sh(cmd, **kw):
     return subprocess.run(cmd, shell=True, text=True, stdout=subprocess.PIPE, stderr=subprocess.STDOUT, **kw)
 
 def clean():
-    sh(f"git -C {REPO} checkout -q -- . && git -C {REPO} clean -qfd")
+    sh(f"git -C {REPO} reset -q --hard HEAD && git -C {REPO} clean -qfd")
 
 def main():
     if sh(f"git -C {REPO} status --porcelain").stdout.strip():
@@ -25,14 +25,7 @@ def main():
         d = os.path.join(SEED, i)
         meta = json.load(open(os.path.join(d, "meta.json")))
         patch = next((os.path.join(d, p) for p in ("patch.rebased.diff", "patch.diff") if os.path.exists(os.path.join(d, p))), None)
-        ap = sh(f"git -C {REPO} apply --check {patch}")
-        if ap.returncode != 0 and patch.endswith("rebased.diff") is False:
-            ap3 = sh(f"git -C {REPO} apply --3way {patch}")
-            applied = ap3.returncode == 0
-            if applied:
-                sh(f"git -C {REPO} reset -q")
-        else:
-            applied = sh(f"git -C {REPO} apply {patch}").returncode == 0
+        applied = sh(f"git -C {REPO} apply --check {patch}").returncode == 0 and sh(f"git -C {REPO} apply {patch}").returncode == 0
         row = {"patch": os.path.basename(patch), "repo_head": head, "applies": applied, "checks": {}}
         if applied:
             props = [meta["breaks_property"]] + [p for p in meta.get("also_run", []) if p != meta["breaks_property"]]
